@@ -226,6 +226,28 @@ pub fn catalogue() -> Vec<(String, &'static str)> {
     add("<!DOCTYPE r [<!ENTITY a \"&#60;\">]><r x=\"&a;\"/>", "lt via charref entity in attribute");
     add("<!DOCTYPE r [<!ENTITY a \"<b/>\">]><r x=\"&a;\"/>", "markup entity in attribute");
     add("<!DOCTYPE r [<!ENTITY a \"&b;\"><!ENTITY b \"x<y\">]><r x=\"&a;\"/>", "lt via nested entity in attribute");
+    // the same entity is legal in content and illegal in an attribute value: every order of use,
+    // directly and through another entity (a verdict reached for one context must not be reused
+    // for the other)
+    for (decl, what) in [
+        ("<!ENTITY e '<b/>'>", "markup entity"),
+        ("<!ENTITY e SYSTEM 'e.xml'>", "external entity"),
+        ("<!ENTITY e 'x<!--c-->y'>", "entity holding a comment"),
+    ] {
+        let why: &'static str = Box::leak(format!("{} used in content and in an attribute value", what).into_boxed_str());
+        for body in [
+            "<r><x>&e;</x><y a='&e;'/></r>",
+            "<r><y a='&e;'/><x>&e;</x></r>",
+            "<r a='&e;'>&e;</r>",
+            "<r>&e;<y a='&e;'/></r>",
+            "<r><x>&e;</x><y a='&f;'/></r>",
+            "<r><x>&f;</x><y a='&e;'/></r>",
+            "<r><x>&f;</x><x>&e;</x><y a='&f;'/></r>",
+        ] {
+            v.push((format!("<!DOCTYPE r [{}<!ENTITY f '&e;'>]>{}", decl, body), why));
+        }
+    }
+    let mut add = |s: &str, why: &'static str| v.push((s.to_string(), why));
     // references to unparsed / external entities
     add("<!DOCTYPE r [<!NOTATION n SYSTEM 's'><!ENTITY u SYSTEM 'u' NDATA n>]><r>&u;</r>", "unparsed entity in content");
     add("<!DOCTYPE r [<!NOTATION n SYSTEM 's'><!ENTITY u SYSTEM 'u' NDATA n>]><r x='&u;'/>", "unparsed entity in attribute");
